@@ -185,9 +185,12 @@ func (node *harness) run(ctx context.Context, sender tracing.ISenderHandle) {
 				go func(bctx context.Context) {
 					select {
 					case rsp := <-in:
-						out <- rsp
+						// announce the end of the boundary phase BEFORE the token gets its answer: afterwards
+						// the token runs on (possibly to the end of the instance) and this trace would be
+						// out of order with the token's traces, even with the cease flow trace
 						atomic.StoreInt32(&node.active, 0)
 						node.tracer.Send(ActiveBoundaryTrace{Start: false, Node: node.activity.Element()})
+						out <- rsp
 					case <-bctx.Done():
 						return
 					}
